@@ -13,7 +13,7 @@ import (
 type snap struct {
 	nodes   []latch.VerifNode
 	waiting [][]int       // per slot: transaction indices in queue order (-1: unknown lock)
-	holder  [][]int       // per node: index of the holding transaction or -1
+	holder  []int         // per node: index of the holding transaction or -1
 	lock    []*latch.Lock // per transaction: its Lock if the simulator can see it, else nil
 	ac      []int         // per transaction: Lock.acquiredCount (-1 unknown)
 	stale   []bool        // per transaction: Lock.IsStale()
@@ -26,7 +26,6 @@ func takeSnap(L *latch.Latches, n int, find func(*latch.Lock) int, known []*latc
 	copy(s.lock, known)
 	nodes, waiting := L.VerifDump()
 	s.nodes = nodes
-	s.holder = make([][]int, 0)
 	see := func(l *latch.Lock) int {
 		if l == nil {
 			return -1
@@ -41,7 +40,7 @@ func takeSnap(L *latch.Latches, n int, find func(*latch.Lock) int, known []*latc
 	for i, nd := range nodes {
 		hs[i] = see(nd.Holder)
 	}
-	s.holder = append(s.holder, hs)
+	s.holder = hs
 	s.waiting = make([][]int, len(waiting))
 	for i, wl := range waiting {
 		for _, l := range wl {
@@ -66,7 +65,7 @@ func (s *snap) holdersOf() map[string][]int {
 		if _, ok := m[nd.Key]; !ok {
 			m[nd.Key] = nil
 		}
-		if h := s.holder[0][i]; nd.Holder != nil {
+		if h := s.holder[i]; nd.Holder != nil {
 			m[nd.Key] = append(m[nd.Key], h)
 		}
 	}
@@ -92,7 +91,7 @@ func (s *snap) String() string {
 	for i, nd := range s.nodes {
 		h := "-"
 		if nd.Holder != nil {
-			h = fmt.Sprintf("T%d", s.holder[0][i])
+			h = fmt.Sprintf("T%d", s.holder[i])
 		}
 		fmt.Fprintf(&sb, "[%d:%s max=%d holder=%s]", nd.Slot, nd.Key, nd.MaxCommitTS, h)
 	}
